@@ -63,3 +63,58 @@ Theorem C20_info_lists_top_level_boxes : forall (bs : list (bytes * bytes)),
   info_walk (concat (map (fun tp => build_box (fst tp) (snd tp)) bs)) = Some (expected_entries bs 0).
 Proof. exact info_lists_top_level_boxes. Qed.
 Print Assumptions C20_info_lists_top_level_boxes.
+
+From Muxide Require Export Model.Boxes Model.Names Proofs.NamesProofs.
+(* the codec names the library prints (and the CLI shows) are accepted back by the option parser, and
+   option values are case-insensitive *)
+Theorem C20_video_codec_name_parses_back : forall c, parse_video_codec (video_codec_name c) = Some c.
+Proof. exact video_codec_name_parses_back. Qed.
+Print Assumptions C20_video_codec_name_parses_back.
+Theorem C20_audio_codec_name_parses_back : forall c, parse_audio_codec (audio_codec_name c) = Some c.
+Proof. exact audio_codec_name_parses_back. Qed.
+Print Assumptions C20_audio_codec_name_parses_back.
+Theorem C20_codec_options_ignore_case : forall s,
+  parse_video_codec (map ascii_lower s) = parse_video_codec s /\
+  parse_audio_codec (map ascii_lower s) = parse_audio_codec s.
+Proof. intros s; split; [apply parse_video_codec_ignores_case | apply parse_audio_codec_ignores_case]. Qed.
+Print Assumptions C20_codec_options_ignore_case.
+
+From Muxide Require Export Model.Cli Proofs.CliProofs Proofs.CliCompleteProofs.
+(* COMPLETE characterisation of the mux command (model of src/bin/muxide.rs):
+   a dry run succeeds exactly when an input is named, the numeric parameters of each named input are
+   present and every named input file exists; it writes nothing *)
+Theorem C20_dry_run_complete : forall o, mo_dry_run o = true ->
+  (mux_command o = CliOk None 0 0 <->
+     (mo_video o <> None \/ mo_audio o <> None) /\ video_given_ok o /\ audio_given_ok o /\
+     mo_video o <> Some Missing /\ mo_audio o <> Some Missing) /\
+  (mux_command o = CliOk None 0 0 \/ mux_command o = CliFail).
+Proof. exact dry_run_complete. Qed.
+Print Assumptions C20_dry_run_complete.
+
+(* a real run succeeds with (file, nv, na) exactly when the declarative specification real_run_spec holds:
+   video named, parameters present and in range, output creatable, not fragmented, inputs exist and decode
+   as ASCII hex, the library accepts the builder, the video frame at time 0 (keyframe), the audio frame at
+   time 0 and finish; the file is then the library's output *)
+Theorem C20_real_run_complete : forall o file nv na, mo_dry_run o = false ->
+  (mux_command o = CliOk (Some file) nv na <-> real_run_spec o file nv na).
+Proof. exact real_run_complete. Qed.
+Print Assumptions C20_real_run_complete.
+
+Theorem C20_real_run_is_deterministic_and_counts : forall o file nv na,
+  real_run_spec o file nv na -> nv = 1 /\ na = (match mo_audio o with Some _ => 1 | None => 0 end).
+Proof. exact real_run_counts. Qed.
+Print Assumptions C20_real_run_is_deterministic_and_counts.
+
+(* an audio-only real run fails loudly (the library requires a video track) although its dry run succeeds *)
+Theorem C20_audio_only_real_run_fails : forall o, mo_dry_run o = false -> mo_video o = None -> mux_command o = CliFail.
+Proof. exact audio_only_real_run_fails. Qed.
+Print Assumptions C20_audio_only_real_run_fails.
+
+Theorem C20_outcome_shapes : forall o,
+  match mux_command o with
+  | CliOk None nv na => mo_dry_run o = true /\ nv = 0 /\ na = 0
+  | CliOk (Some _) nv na => mo_dry_run o = false /\ nv <= 1 /\ na <= 1
+  | CliFail => True
+  end.
+Proof. exact outcome_shapes. Qed.
+Print Assumptions C20_outcome_shapes.
